@@ -4,14 +4,20 @@ MC (TLC, exhaustive on bounded instances)
   MC_AESTables / MC_AESVectors / MC_AESModesVectors   literal tables = GF(2^8) definitions; FIPS-197 and SP 800-38A answers
   MC_AESModes   mode objects (state machines) = SP 800-38A whole-message functions for every chunking (tiny cipher)
   MC_Feeder     Encrypter/Decrypter: every split into <= 4 chunks ends with the whole-stream specification
+  MC_FeedStream encrypt_stream/decrypt_stream as a loop over read() results: every way a raw stream may hand the data out
+                (short reads anywhere) ends with the whole-stream specification; "short read = end of stream" refuted
   MC_Adapter    every history of <= 4 calls on 2 objects returns the pure functions of (key, iv, data)
 C->S (events recorded from the code in /repo, every expected value computed by TLC)
   Trace_AES       14 tables x 256 entries + rcon, random/NIST blocks for 128/192/256-bit keys, OpenSSL cross-check of AES.tla
   Trace_AESModes  mode objects and feeders replayed call by call; whole streams vs the specification and vs OpenSSL;
-                  feeder chunkings = every chunking TLC enumerated in MC_Feeder (S->C) + random byte-granular ones
+                  feeder chunkings = every chunking TLC enumerated in MC_Feeder (S->C) + random byte-granular ones;
+                  stream helpers on BytesIO and raw streams with short reads, block_size 1/15/16/17/8192/...;
+                  deterministic revisits: the same inputs again under another chunking / object history / stream kind
   Trace_Adapter   create_AES128 histories on shared / separate objects, pad, unregistered base class
-The harness holds no model: it generates inputs, calls the real code / openssl and logs."""
-import os, json, shutil, subprocess, concurrent.futures as cf
+The harness holds no model: it generates inputs, calls the real code / openssl and logs.  No recording step assumes
+that the library behaves: a call that raises or returns something that is not a byte string becomes an event TLC rejects
+(exit 1), never a harness crash (exit 2 is for TLC / openssl / java failures only)."""
+import io, os, json, shutil, subprocess, concurrent.futures as cf
 
 from ..common import SPEC, Scratch, rng, MachineryError
 from ..report import Report
@@ -37,6 +43,11 @@ def adapter_cfg(blk, maxcalls=4, strips=False, stateful=False):
     return ("CONSTANTS BLK = %d  CM = 4  MaxCalls = %d  ADAPTER_STRIPS = %s  STATEFUL_IV = %s\n" % (
         blk, maxcalls, "TRUE" if strips else "FALSE", "TRUE" if stateful else "FALSE") + TINY
         + "INVARIANT PureResult\nINVARIANT RoundTrip\nINVARIANT MacLast\nPROPERTY KeepsParams\n")
+
+
+def stream_cfg(blk, maxblocks=3, bsizes="{1, 2, 3, 8}", short_ends=False):
+    return ("CONSTANTS BLK = %d  CM = 4  MaxBlocks = %d  BSizes = %s  SHORT_ENDS = %s\n" % (
+        blk, maxblocks, bsizes, "TRUE" if short_ends else "FALSE") + TINY + "INVARIANT StreamOutcome\n")
 
 
 # ------------------------------------------------------------------------------------------------ real code
@@ -78,6 +89,16 @@ class Rec:
         return self.grp
 
 
+def BL(x):
+    """bytes-like / list of ints -> JSON list; anything else the library may hand back (None, wrong type, values out of
+    range) -> [-1], which no specification value equals: the event is rejected instead of the harness crashing."""
+    try:
+        v = [int(b) for b in x]
+        return v if all(0 <= b < 256 for b in v) else [-1]
+    except Exception:                                              # noqa
+        return [-1]
+
+
 def rb(r, n):
     return bytes(r.randrange(256) for _ in range(n))
 
@@ -104,7 +125,10 @@ def record_cipher(rec, rep, r, tier, pool):
     AES = aes.AES
     # tables, entry by entry
     for name in ["S", "Si"] + ["T%d" % i for i in range(1, 9)] + ["U%d" % i for i in range(1, 5)] + ["rcon"]:
-        tab = getattr(AES, name)
+        try:
+            tab = list(getattr(AES, name))
+        except Exception:                                          # noqa: missing / not a sequence -> length event is rejected
+            tab = []
         rec.add({"op": "tablen", "name": name, "n": len(tab)})
         wide = name[0] in "TU"
         for x, e in enumerate(tab):
@@ -118,15 +142,36 @@ def record_cipher(rec, rep, r, tier, pool):
     for ks in (16, 24, 32):
         cases += [(rb(r, ks), rb(r, 16)) for _ in range(n)]
         cases += [(rb(r, ks), bytes([r.choice([0, 255])] * 16)) for _ in range(4)]
+
+    def safe(fn):
+        try:
+            return BL(fn())
+        except Exception:                                          # noqa: a raising cipher gives an event TLC rejects
+            return [-1]
+
     for key, pt in cases:
-        a = AES(key)
-        ct = a.encrypt(pt if r.random() < 0.5 else list(pt))         # bytes or list of ints, both are used by the modes
-        dt = AES(key).decrypt(ct) if r.random() < 0.5 else a.decrypt(ct)
-        rec.add({"op": "blk", "key": list(key), "pt": list(pt), "ct": list(ct), "dt": list(dt)}, cost=12)
+        same = r.random() < 0.5
+        as_list = r.random() < 0.5
+        ct = safe(lambda: AES(key).encrypt(list(pt) if as_list else pt))   # bytes or list of ints, both are used by the modes
+        dt = safe(lambda: AES(key).decrypt(ct if same else bytes(ct)))
+        rec.add({"op": "blk", "key": list(key), "pt": list(pt), "ct": ct, "dt": dt}, cost=12)
+    # the same (key, block) again on ONE cipher object after it has processed other blocks: a block result never
+    # depends on what the object did before
+    for ks in (16, 24, 32):
+        key = rb(r, ks)
+        try:
+            a = AES(key)
+        except Exception:                                          # noqa
+            a = None
+        todo = [rb(r, 16) for _ in range(4)]
+        for pt in todo + todo[::-1]:
+            ct = safe(lambda: a.encrypt(pt))
+            dt = safe(lambda: a.decrypt(bytes(ct)))
+            rec.add({"op": "blk", "key": list(key), "pt": list(pt), "ct": ct, "dt": dt}, cost=12)
     for ks in (16, 24, 32):
         for _ in range(n // 2):
             key, ct = rb(r, ks), rb(r, 16)
-            rec.add({"op": "dblk", "key": list(key), "ct": list(ct), "pt": list(AES(key).decrypt(ct))}, cost=12)
+            rec.add({"op": "dblk", "key": list(key), "ct": list(ct), "pt": safe(lambda: AES(key).decrypt(ct))}, cost=12)
     # oracle: AES.tla itself against OpenSSL (independent of pyaes)
     nk = 250 if tier == "thorough" else 70
     jobs = []
@@ -177,7 +222,12 @@ def drive_mode(rec, r, aes, mode, key, iv, seg, direction, stream, sizes, none_i
     """One mode object, one call per entry of sizes (a size the mode must reject consumes nothing)."""
     g = rec.newgrp()
     rec.add({"op": "m.new", "grp": g, "mode": mode, "key": list(key), "iv": list(iv), "seg": seg, "tag": tag}, cost=2)
-    obj = mk_mode(aes, mode, key, iv, seg, none_iv)
+    try:
+        obj = mk_mode(aes, mode, key, iv, seg, none_iv)
+    except Exception as ex:                                        # noqa: logged as a raising call of admissible size -> rejected by TLC
+        rec.add({"op": "m.call", "grp": g, "dir": direction, "data": [0] * (16 * max(1, seg)), "out": [], "err": 1,
+                 "cls": "constructor:" + type(ex).__name__, "tag": tag}, cost=16)
+        return g
     pos, acc_in, acc_out = 0, b"", b""
     for n in sizes:
         chunk = stream[pos:pos + n]
@@ -186,8 +236,10 @@ def drive_mode(rec, r, aes, mode, key, iv, seg, direction, stream, sizes, none_i
             err, cls = 0, ""
         except Exception as ex:                                    # noqa: the class is logged, the spec judges raise / no raise
             out, err, cls = b"", 1, type(ex).__name__
-        rec.add({"op": "m.call", "grp": g, "dir": direction, "data": list(chunk), "out": list(out), "err": err, "cls": cls, "tag": tag},
+        rec.add({"op": "m.call", "grp": g, "dir": direction, "data": list(chunk), "out": BL(out), "err": err, "cls": cls, "tag": tag},
                 cost=aes_cost(mode, seg, len(chunk)))
+        if BL(out) == [-1]:
+            break
         if not err:
             pos += len(chunk)
             acc_in += chunk
@@ -237,6 +289,14 @@ def record_modes(rec, r, tier, oracle_jobs):
         total = r.randint(50, 90)
         drive_mode(rec, r, aes, "ctr", key, c.to_bytes(16, "big"), 0, "enc" if j % 2 == 0 else "dec", rb(r, total),
                    mode_sizes(r, "ctr", 0, total, with_bad=False), oracle_jobs=oracle_jobs)
+    # the same key and data under the counter blocks 0, 1 (explicit) and the default counter, every key size; twice on
+    # fresh objects with another chunking: a result depends on (key, counter, data) only
+    for ks in (16, 24, 32):
+        key, data = rb(r, ks), rb(r, 40)
+        for c in (0, 1, 2, 255, 256, 1 << 64, top):
+            for sizes in ([5, 15, 20], [40]):
+                drive_mode(rec, r, aes, "ctr", key, c.to_bytes(16, "big"), 0, "enc", data, sizes, tag="ctr-%x" % c, oracle_jobs=oracle_jobs if sizes == [40] else None)
+        drive_mode(rec, r, aes, "ctr", key, (1).to_bytes(16, "big"), 0, "enc", data, [7, 33], none_iv=True, tag="ctr-iv-none")
     # documented defaults: iv None = zero IV, default counter = 1
     for mode, seg in (("cbc", 0), ("ofb", 0), ("ctr", 0), ("cfb", 1), ("cfb", 16)):
         key = rb(r, 16)
@@ -250,28 +310,42 @@ FEEDER_MODES = [("ecb", 0), ("cbc", 0), ("cfb", 1), ("cfb", 3), ("cfb", 16), ("o
 FEEDER_CFGS = [(m, s, d, p) for (m, s) in FEEDER_MODES for d in ("enc", "dec") for p in ("default", "none")]
 
 
-def drive_feeder(rec, r, aes, bf, mode, seg, direction, padding, total, sizes, valid=True, post=False, tag=""):
-    key = rb(r, r.choice([16, 16, 16, 24, 32]))
-    iv = b"" if mode == "ecb" else rb(r, 16)
-    # input stream: plain text, or for a Decrypter cipher text - made by the real Encrypter when a validly padded
-    # stream of exactly `total` bytes exists (input generation only; every output is judged by TLC)
-    stream = rb(r, total)
-    if direction == "dec" and padding == "default" and mode in ("ecb", "cbc") and valid and total >= 16 and total % 16 == 0:
-        e = bf.Encrypter(mk_mode(aes, mode, key, iv, seg))
-        pt = rb(r, total - 16 + r.randrange(16))
-        stream = bytes(e.feed(pt)) + bytes(e.feed())
-        if len(stream) != total:
+def valid_cipher_text(r, aes, bf, mode, key, iv, seg, total):
+    """cipher text of exactly `total` bytes with valid PKCS#7 padding inside, made by the real Encrypter (input
+    generation only - every output is judged by TLC); random bytes if that is impossible or the library misbehaves."""
+    if total >= 16 and total % 16 == 0:
+        try:
+            e = bf.Encrypter(mk_mode(aes, mode, key, iv, seg))
+            pt = rb(r, total - 16 + r.randrange(16))
+            stream = bytes(e.feed(pt)) + bytes(e.feed())
+            if len(stream) == total:
+                return stream
+        except Exception:                                          # noqa
+            pass
+    return rb(r, total)
+
+
+def drive_feeder(rec, r, aes, bf, mode, seg, direction, padding, total, sizes, valid=True, post=False, tag="", key=None, iv=None, stream=None):
+    key = rb(r, r.choice([16, 16, 16, 24, 32])) if key is None else key
+    iv = (b"" if mode == "ecb" else rb(r, 16)) if iv is None else iv
+    if stream is None:
+        if direction == "dec" and padding == "default" and mode in ("ecb", "cbc") and valid:
+            stream = valid_cipher_text(r, aes, bf, mode, key, iv, seg, total)
+        else:
             stream = rb(r, total)
     g = rec.newgrp()
-    per = aes_cost(mode, seg, 16) if mode == "cfb" else 1
     rec.add({"op": "f.new", "grp": g, "mode": mode, "key": list(key), "iv": list(iv), "seg": seg, "dir": direction, "pad": padding, "tag": tag}, cost=2)
-    f = (bf.Encrypter if direction == "enc" else bf.Decrypter)(mk_mode(aes, mode, key, iv, seg), padding=padding)
+    try:
+        f = (bf.Encrypter if direction == "enc" else bf.Decrypter)(mk_mode(aes, mode, key, iv, seg), padding=padding)
+    except Exception as ex:                                        # noqa: logged as a raising feed(b"") -> rejected by TLC
+        rec.add({"op": "f.feed", "grp": g, "data": [], "fin": 0, "out": [], "err": 1, "cls": "constructor:" + type(ex).__name__, "tag": tag})
+        return g
     pos, outs, failed = 0, b"", 0
 
     def call(data, fin):
         try:
             o = f.feed(None if fin else data)
-            return bytes(o), 0, ""
+            return (bytes(o) if BL(o) != [-1] else None), 0, ""
         except Exception as ex:                                    # noqa
             return b"", 1, type(ex).__name__
 
@@ -279,20 +353,20 @@ def drive_feeder(rec, r, aes, bf, mode, seg, direction, padding, total, sizes, v
         chunk = stream[pos:pos + n]
         pos += n
         o, e, cls = call(chunk, 0)
-        rec.add({"op": "f.feed", "grp": g, "data": list(chunk), "fin": 0, "out": list(o), "err": e, "cls": cls, "tag": tag}, cost=aes_cost(mode, seg, len(o)))
-        if e:
+        rec.add({"op": "f.feed", "grp": g, "data": list(chunk), "fin": 0, "out": BL(o), "err": e, "cls": cls, "tag": tag}, cost=aes_cost(mode, seg, len(o or b"")))
+        if e or o is None:
             failed = 1
             break
         outs += o
     if not failed:
         o, e, cls = call(b"", 1)
-        rec.add({"op": "f.feed", "grp": g, "data": [], "fin": 1, "out": list(o), "err": e, "cls": cls, "tag": tag}, cost=aes_cost(mode, seg, 32))
+        rec.add({"op": "f.feed", "grp": g, "data": [], "fin": 1, "out": BL(o), "err": e, "cls": cls, "tag": tag}, cost=aes_cost(mode, seg, 32))
         failed = e
-        outs += o
+        outs += o or b""
         if post and not e:
             for d, fin in ((b"x", 0), (b"", 1)):
                 o, e, cls = call(d, fin)
-                rec.add({"op": "f.feed", "grp": g, "data": list(d) if not fin else [], "fin": fin, "out": list(o), "err": e, "cls": cls, "tag": tag})
+                rec.add({"op": "f.feed", "grp": g, "data": list(d) if not fin else [], "fin": fin, "out": BL(o), "err": e, "cls": cls, "tag": tag})
     rec.add({"op": "f.end", "grp": g, "stream": list(stream[:pos]), "outs": list(outs), "err": failed, "tag": tag}, cost=aes_cost(mode, seg, pos) + 1)
     return g
 
@@ -309,6 +383,18 @@ def record_feeders(rec, r, tier, shapes):
                 seg = 16                                             # quick tier: long streams byte by byte only in thorough
             drive_feeder(rec, r, aes, bf, mode, seg, d, p, 8 * L, [8 * s for s in sizes], valid=((k + j) % 3 != 0), post=((k + j) % 7 == 0))
     n_sc = rec.grp - n0
+    # the same (configuration, key, iv, stream) under different chunkings on fresh feeders; counter blocks 0 and 1
+    for (mode, seg, d, p) in FEEDER_CFGS:
+        key = rb(r, 16)
+        iv = b"" if mode == "ecb" else rb(r, 16)
+        total = 24 if (mode == "cfb" and seg == 1) else 48
+        stream = valid_cipher_text(r, aes, bf, mode, key, iv, seg, total) if (d == "dec" and p == "default" and mode in ("ecb", "cbc")) else rb(r, total)
+        for sizes in ([total], [1] * 17 + [total - 17], [16, 16, total - 32], [5, 0, total - 5]):
+            drive_feeder(rec, r, aes, bf, mode, seg, d, p, total, sizes, key=key, iv=iv, stream=stream, tag="revisit")
+    for c in (0, 1):
+        for ks in (16, 24, 32):
+            key, data = rb(r, ks), rb(r, 16)
+            drive_feeder(rec, r, aes, bf, "ctr", 0, "enc", "default", 16, [5, 11], key=key, iv=c.to_bytes(16, "big"), stream=data, tag="ctr-%x" % c)
     # random byte-granular chunkings: 0..5 blocks + 0..15 residual, <= 4 chunks (and some longer / finer ones)
     for j in range(3000 if tier == "thorough" else 224):
         mode, seg, d, p = FEEDER_CFGS[j % len(FEEDER_CFGS)]
@@ -328,39 +414,157 @@ def record_feeders(rec, r, tier, shapes):
     return n_sc
 
 
+# ------------------------------------------------------------------------------------------------ part 3b: stream helpers
+class ChunkedReader(io.RawIOBase):
+    """A legal raw input stream (like an unbuffered file, pipe or socket): read(n) hands the data out in the given piece
+    sizes (never more than n, at least 1 byte while data is left; full reads once the sizes are used up) and returns b''
+    only at the real end.  Every result is logged."""
+
+    def __init__(self, data, sizes, log):
+        io.RawIOBase.__init__(self)
+        self._data, self._pos, self._sizes, self._log = data, 0, list(sizes), log
+
+    def readable(self):
+        return True
+
+    def readinto(self, buf):
+        if self._pos >= len(self._data):
+            self._log.append(b"")
+            return 0
+        want = self._sizes.pop(0) if self._sizes else len(buf)
+        n = max(1, min(want, len(buf), len(self._data) - self._pos))
+        buf[:n] = self._data[self._pos:self._pos + n]
+        self._log.append(self._data[self._pos:self._pos + n])
+        self._pos += n
+        return n
+
+
+class LoggedBytesIO(io.BytesIO):
+    def __init__(self, data, log):
+        io.BytesIO.__init__(self, data)
+        self._log = log
+
+    def read(self, n=-1):
+        b = io.BytesIO.read(self, n)
+        self._log.append(b)
+        return b
+
+
+STREAM_BS = [1, 15, 16, 17, 8192]
+
+
+def drive_stream(rec, aes, bf, mode, seg, direction, padding, key, iv, data, bs, sizes, tag=""):
+    """encrypt_stream / decrypt_stream on an input stream holding `data`; sizes None = io.BytesIO, else a raw stream
+    handing the data out in pieces of these sizes.  One event; TLC judges output and error flag against FeederSpec(data)."""
+    log, out = [], io.BytesIO()
+    src = LoggedBytesIO(data, log) if sizes is None else ChunkedReader(data, sizes, log)
+    try:
+        obj = mk_mode(aes, mode, key, iv, seg)
+        (bf.encrypt_stream if direction == "enc" else bf.decrypt_stream)(obj, src, out, block_size=bs, padding=padding)
+        err, cls = 0, ""
+    except Exception as ex:                                        # noqa: the spec judges raise / no raise
+        err, cls = 1, type(ex).__name__
+    g = rec.newgrp()
+    rec.add({"op": "s.run", "grp": g, "mode": mode, "key": list(key), "iv": list(iv), "seg": seg, "dir": direction, "pad": padding, "bs": bs,
+             "data": list(data), "reads": [list(x) for x in log], "out": list(out.getvalue()), "err": err, "cls": cls,
+             "src": "bytesio" if sizes is None else "raw", "tag": tag}, cost=2 * aes_cost(mode, seg, len(data)) + 2)
+    return g
+
+
+def record_streams(rec, r, tier, shapes):
+    aes, bf, _ = _real()
+    n0 = rec.grp
+
+    def inputs(mode, seg, d, p, total, valid=True):
+        key = rb(r, r.choice([16, 16, 24, 32]))
+        iv = b"" if mode == "ecb" else rb(r, 16)
+        if d == "dec" and p == "default" and mode in ("ecb", "cbc") and valid:
+            return key, iv, valid_cipher_text(r, aes, bf, mode, key, iv, seg, total)
+        return key, iv, rb(r, total)
+
+    # (a) deterministic: the same (configuration, key, iv, data) through every kind of input stream and block_size -
+    #     BytesIO, one short read then the end, a short read FOLLOWED BY MORE DATA, reads of exactly block_size, single bytes
+    for (mode, seg, d, p) in FEEDER_CFGS:
+        total = 32 if (mode == "cfb" and seg == 1) else 80
+        key, iv, data = inputs(mode, seg, d, p, total)
+        for sizes, bs in ((None, 8192), (None, 16), (None, 17), ([total], 8192), ([total // 2], 8192), ([3, 1, 16], 8192), ([16] * (total // 16), 16),
+                          ([], 15), ([5, 16, 1, 17, 3], 17), ([], 1), ([7, 16, 9], 16)):
+            drive_stream(rec, aes, bf, mode, seg, d, p, key, iv, data, bs, sizes, tag="stream-revisit")
+        key, iv, data = inputs(mode, seg, d, p, 0)
+        drive_stream(rec, aes, bf, mode, seg, d, p, key, iv, b"", 16, None, tag="stream-empty")
+        drive_stream(rec, aes, bf, mode, seg, d, p, key, iv, b"", 8192, [], tag="stream-empty")
+    # (b) S->C: chunkings enumerated by TLC (MC_Feeder) as the piece sizes of a raw stream (1 cell = 8 bytes; empty pieces dropped)
+    step = 1 if tier == "thorough" else 6
+    for k, (Ln, sizes) in enumerate(shapes[::step]):
+        mode, seg, d, p = FEEDER_CFGS[(k * 5 + k // 28) % len(FEEDER_CFGS)]
+        if mode == "cfb" and seg == 1 and Ln > 4:
+            seg = 16 if tier != "thorough" else 1
+        key, iv, data = inputs(mode, seg, d, p, 8 * Ln, valid=(k % 3 != 0))
+        drive_stream(rec, aes, bf, mode, seg, d, p, key, iv, data, (STREAM_BS + [8, 24, 40])[k % 8], [8 * x for x in sizes if x], tag="stream-tlc-chunking")
+    # (c) random: lengths 0..95, random piece sizes (incl. 0 < n < block_size, n = block_size), random block_size
+    for j in range(2000 if tier == "thorough" else 140):
+        mode, seg, d, p = FEEDER_CFGS[(j * 3) % len(FEEDER_CFGS)]
+        if mode == "cfb" and seg == 3 and j % 2:
+            seg = r.choice([2, 5, 7, 8, 13])
+        total = 16 * r.randint(0, 5) + r.randint(0, 15)
+        if d == "dec" and mode in ("ecb", "cbc") and r.random() < 0.6:
+            total -= total % 16
+        if mode == "cfb" and seg == 1:
+            total = min(total, 40)
+        bs = r.choice(STREAM_BS + [r.randint(2, 40)])
+        sizes = None if j % 5 == 0 else [r.choice([1, bs, max(1, bs - 1), r.randint(1, 40)]) for _ in range(r.randint(0, 8))]
+        key, iv, data = inputs(mode, seg, d, p, total, valid=(j % 4 != 0))
+        drive_stream(rec, aes, bf, mode, seg, d, p, key, iv, data, bs, sizes, tag="stream-random")
+    return rec.grp - n0
+
+
 # ------------------------------------------------------------------------------------------------ part 4: adapter
 def record_adapter(rec, r, tier):
     _, _, bc = _real()
-    create = bc.create_AES128
+
+    class Broken:                                                  # stands in for an object the library failed to create
+        def __init__(self, ex):
+            self.ex = ex
+
+        def __getattr__(self, name):
+            def raiser(*a):
+                raise self.ex
+            return raiser
+
+    def create(key, iv):
+        try:
+            return bc.create_AES128(key, iv)
+        except Exception as ex:                                    # noqa: every call on it is then logged as raising -> rejected
+            return Broken(ex)
 
     def call(o, key, iv, fn, data, **extra):
         try:
             out, err, cls = getattr(o, fn)(data), 0, ""
         except Exception as ex:                                    # noqa
             out, err, cls = b"", 1, type(ex).__name__
-        ev = {"op": "ad.call", "key": list(key), "iv": list(iv or b""), "fn": fn, "data": list(data), "out": list(out), "err": err, "cls": cls}
+        ev = {"op": "ad.call", "key": list(key), "iv": list(iv or b""), "fn": fn, "data": list(data), "out": BL(out), "err": err, "cls": cls}
         ev.update(extra)
         rec.add(ev, cost=blocks(len(data)) + 2)
-        return out
+        return bytes(out) if BL(out) != [-1] else b""
 
-    def datum(kind, L):
+    def datum(kind, n):
         if kind == "zeros":
-            return bytes(L)
-        d = rb(r, L)
+            return bytes(n)
+        d = rb(r, n)
         if kind == "zero-tail":
-            z = r.randint(1, L)
-            d = d[:L - z] + bytes(z)
+            z = r.randint(1, n)
+            d = d[:n - z] + bytes(z)
         return d
 
     # systematic: every length 1..64 x {random, ending in a run of 0x00, all zero} x {iv None, iv given} x {same object, two objects}
-    for L in range(1, 65):
+    for n in range(1, 65):
         for kind in ("random", "zero-tail", "zeros"):
             for with_iv in (False, True):
                 key, iv = rb(r, 16), (rb(r, 16) if with_iv else None)
-                shared = (L + with_iv) % 2
+                shared = (n + with_iv) % 2
                 o1 = create(key, iv)
                 o2 = o1 if shared else create(key, iv)
-                d = datum(kind, L)
+                d = datum(kind, n)
                 try:
                     enc = o1.encrypt(d)
                     dec = o2.decrypt(enc)
@@ -370,12 +574,31 @@ def record_adapter(rec, r, tier):
                     rec.add({"op": "ad.call", "key": list(key), "iv": list(iv or b""), "fn": "encrypt", "data": list(d), "out": [], "err": 1,
                              "cls": type(ex).__name__, "hist": -1, "pos": 0, "shared": shared, "obj": 0})
                     continue
-                rec.add({"op": "ad.rt", "key": list(key), "iv": list(iv or b""), "data": list(d), "enc": list(enc), "dec": list(dec),
-                         "kind": kind, "shared": shared}, cost=2 * blocks(L) + 2)
-                rec.add({"op": "ad.call", "key": list(key), "iv": list(iv or b""), "fn": "mac", "data": list(d), "out": list(mac), "err": 0, "cls": "",
-                         "hist": -1, "pos": 2, "shared": shared, "obj": 0}, cost=blocks(L) + 2)
-                rec.add({"op": "ad.call", "key": list(key), "iv": list(iv or b""), "fn": "encrypt", "data": list(d), "out": list(enc2), "err": 0, "cls": "",
-                         "hist": -1, "pos": 3, "shared": shared, "obj": 1 - shared}, cost=blocks(L) + 2)
+                rec.add({"op": "ad.rt", "key": list(key), "iv": list(iv or b""), "data": list(d), "enc": BL(enc), "dec": BL(dec),
+                         "kind": kind, "shared": shared}, cost=2 * blocks(n) + 2)
+                rec.add({"op": "ad.call", "key": list(key), "iv": list(iv or b""), "fn": "mac", "data": list(d), "out": BL(mac), "err": 0, "cls": "",
+                         "hist": -1, "pos": 2, "shared": shared, "obj": 0}, cost=blocks(n) + 2)
+                rec.add({"op": "ad.call", "key": list(key), "iv": list(iv or b""), "fn": "encrypt", "data": list(d), "out": BL(enc2), "err": 0, "cls": "",
+                         "hist": -1, "pos": 3, "shared": shared, "obj": 1 - shared}, cost=blocks(n) + 2)
+    # deterministic histories on ONE object: the same inputs revisited after every other kind of call (mac after encrypt,
+    # mac after mac, short mac after mac, decrypt after mac, encrypt after decrypt, ...), then once more on a fresh object
+    hist = 1000000
+    for iv in (rb(r, 16), None, bytes(16)):
+        for n_long, n_short in ((64, 21), (16, 1), (33, 32)):
+            key, P, sh = rb(r, 16), datum("random", n_long), datum("zero-tail", n_short)
+            hist += 1
+            o, pos = create(key, iv), 0
+            C = b""
+            for fn, d in (("encrypt", P), ("mac", P), ("mac", P), ("mac", sh), ("decrypt", None), ("mac", P), ("encrypt", sh), ("encrypt", P),
+                          ("decrypt", None), ("decrypt", None), ("mac", sh), ("encrypt", P)):
+                d = (C or bytes(16)) if d is None else d
+                out = call(o, key, iv, fn, d, hist=hist, pos=pos, shared=1, obj=0)
+                if fn == "encrypt" and d is P and out:
+                    C = out
+                pos += 1
+            for fn, d in (("mac", P), ("encrypt", sh)):
+                call(create(key, iv), key, iv, fn, d, hist=hist, pos=pos, shared=0, obj=1)
+                pos += 1
     # histories: two objects (equal parameters / same key other iv / unrelated), interleaved calls, recurring data
     for h in range(1500 if tier == "thorough" else 120):
         k1, iv1 = rb(r, 16), r.choice([None, bytes(16), rb(r, 16)])
@@ -397,11 +620,18 @@ def record_adapter(rec, r, tier):
             if fn == "encrypt" and out:
                 encs[i].append(bytes(out))
     # pad
-    for L in list(range(0, 66)) + [r.randint(66, 300) for _ in range(10)]:
-        d = datum(r.choice(["random", "zero-tail"]) if L else "zeros", L)
-        rec.add({"op": "pad", "data": list(d), "out": list(bc.pad(d))})
+    for n in list(range(0, 66)) + [r.randint(66, 300) for _ in range(10)]:
+        d = datum(r.choice(["random", "zero-tail"]) if n else "zeros", n)
+        try:
+            out = BL(bc.pad(d))
+        except Exception:                                          # noqa
+            out = [-1]
+        rec.add({"op": "pad", "data": list(d), "out": out})
     # unregistered base class; the registry is restored whatever happens
-    saved = type(create(bytes(16)))
+    try:
+        saved = type(bc.create_AES128(bytes(16)))
+    except Exception:                                              # noqa: fall back to the registry variable itself
+        saved = bc.__dict__.get("__AES128", bc.AES128)
     try:
         bc.register_AES128(bc.AES128)
         o = create(bytes(16), None)
@@ -414,7 +644,7 @@ def record_adapter(rec, r, tier):
             rec.add({"op": "unreg", "what": what, "cls": cls})
     finally:
         bc.register_AES128(saved)
-    if type(create(bytes(16))) is not saved:
+    if bc.__dict__.get("__AES128", saved) is not saved:
         raise MachineryError("could not restore the registered AES128 class")
 
 
@@ -447,7 +677,10 @@ def run(tier):
             "MC_Feeder BLK=2 (0..5 blocks + residual, <= 4 chunks)": (S("MC_Feeder.tla"), feeder_cfg(2), W),
             "MC_AESModes BLK=2": (S("MC_AESModes.tla"), modes_cfg(2, 3, 8, True) if thorough else modes_cfg(2, 2, 6), W),
         }
+        jobs["MC_FeedStream BLK=2 (stream helpers: every way a raw stream may hand out 0..3 blocks + residual; block_size 1, 2, 3, 8)"] = (
+            S("MC_FeedStream.tla"), stream_cfg(2), 2 if not thorough else W)
         if thorough:
+            jobs["MC_FeedStream BLK=3 (block_size 1, 2, 3, 4, 9)"] = (S("MC_FeedStream.tla"), stream_cfg(3, bsizes="{1, 2, 3, 4, 9}"), W)
             jobs["MC_AESModes BLK=3 (segment sizes 1..3)"] = (S("MC_AESModes.tla"), modes_cfg(3, 2, 10), W)
             jobs["MC_Feeder BLK=3 (segment sizes 1..3)"] = (S("MC_Feeder.tla"), feeder_cfg(3), W)
             jobs["MC_Adapter BLK=3"] = (S("MC_Adapter.tla"), adapter_cfg(3), W)
@@ -463,6 +696,7 @@ def run(tier):
             "MC_AESModes WRONG=cbc-dec-chains-plaintext": (S("MC_AESModes.tla"), modes_cfg(2, 2, 5, wrong="cbc-dec-chains-plaintext"), "ChunkingIndependent"),
             "MC_Feeder WRONG=keeps-nothing-back": (S("MC_Feeder.tla"), feeder_cfg(2, maxblocks=2, wrong="keeps-nothing-back"), "KeepsBack"),
             "MC_Feeder WRONG=final-ignores-mode-state": (S("MC_Feeder.tla"), feeder_cfg(2, maxblocks=3, wrong="final-ignores-mode-state"), "Outcome"),
+            "MC_FeedStream SHORT_ENDS=TRUE (a short read taken for the end of the stream)": (S("MC_FeedStream.tla"), stream_cfg(2, 2, short_ends=True), "StreamOutcome"),
             "MC_Adapter ADAPTER_STRIPS=TRUE": (S("MC_Adapter.tla"), adapter_cfg(2, 2, strips=True), "PureResult"),
             "MC_Adapter STATEFUL_IV=TRUE": (S("MC_Adapter.tla"), adapter_cfg(2, 2, stateful=True), "PureResult"),
         }
@@ -481,6 +715,7 @@ def run(tier):
         n_mode_groups = rm.grp
         n_sc = record_feeders(rm, r, tier, shapes)
         n_feeders = rm.grp - n_mode_groups
+        n_streams = record_streams(rm, r, tier, shapes)
         record_adapter(ra, r, tier)
         # whole streams through OpenSSL
         oouts = list(iopool.map(lambda j: ossl(j[1], j[2], j[3], j[4], decrypt=(j[5] == "dec")), oracle_jobs))
@@ -494,7 +729,14 @@ def run(tier):
         # ---- binding self-test: corrupted canaries, one (or more) per trace spec
         canaries = {}
 
+        skipped = []
+
         def canary(rec, src, mutate, want, grp_events=None):
+            if src is None:                                          # no suitable recorded event (the library deviates badly): see below
+                skipped.append(want)
+                return
+            if grp_events == "own":
+                grp_events = order[src["grp"]]
             if grp_events is None:
                 ev = dict(src)
                 mutate(ev)
@@ -516,23 +758,30 @@ def run(tier):
         def flip(field, idx=0):
             def m(ev):
                 v = list(ev[field])
-                v[idx] ^= 1
+                if idx < len(v):
+                    v[idx] ^= 1
+                else:
+                    v.append(1)
                 ev[field] = v
             return m
 
-        first = lambda rec, pred: next(e for e in rec.evs if pred(e))
+        first = lambda rec, pred: next((e for e in rec.evs if pred(e)), None)
         canary(rc, first(rc, lambda e: e["op"] == "blk"), flip("ct", 5), "encrypt-differs-from-fips197")
         canary(rc, first(rc, lambda e: e["op"] == "tab" and e["name"] == "T3" and e["x"] == 77), flip("v", 2), "table-T3")
         canary(rc, first(rc, lambda e: e["op"] == "tab" and e["name"] == "Si" and e["x"] == 9), flip("v", 0), "table-Si")
         canary(rc, first(rc, lambda e: e["op"] == "oblk"), flip("ct", 15), "spec-differs-from-openssl")
-        src = first(rm, lambda e: e["op"] == "m.call" and e["err"] == 0 and len(e["out"]) >= 16)
-        canary(rm, src, flip("out", 3), "mode-call-output", order[src["grp"]])
-        src = first(rm, lambda e: e["op"] == "m.ossl" and len(e["ossl"]) >= 16)
-        canary(rm, src, flip("ossl", 1), "spec-differs-from-openssl", order[src["grp"]])
-        src = first(rm, lambda e: e["op"] == "f.feed" and e["fin"] == 1 and e["err"] == 0 and len(e["out"]) >= 16)
-        canary(rm, src, flip("out", 0), "feed-output", order[src["grp"]])
-        src = first(rm, lambda e: e["op"] == "f.end" and e["err"] == 0 and len(e["outs"]) >= 16)
-        canary(rm, src, flip("outs", 7), "feeder-stream-differs-from-spec", order[src["grp"]])
+        canary(rm, first(rm, lambda e: e["op"] == "m.call" and e["err"] == 0 and len(e["out"]) >= 16), flip("out", 3), "mode-call-output", "own")
+        canary(rm, first(rm, lambda e: e["op"] == "m.ossl" and len(e["ossl"]) >= 16), flip("ossl", 1), "spec-differs-from-openssl", "own")
+        canary(rm, first(rm, lambda e: e["op"] == "f.feed" and e["fin"] == 1 and e["err"] == 0 and len(e["out"]) >= 16), flip("out", 0), "feed-output", "own")
+        canary(rm, first(rm, lambda e: e["op"] == "f.end" and e["err"] == 0 and len(e["outs"]) >= 16), flip("outs", 7), "feeder-stream-differs-from-spec", "own")
+        canary(rm, first(rm, lambda e: e["op"] == "s.run" and e["err"] == 0 and len(e["out"]) >= 16 and e["src"] == "raw"), flip("out", 2),
+               "stream-helper-output-differs-from-spec", "own")
+
+        def drop_tail(ev):                                          # what a helper that stops at the first short read would log and write
+            ev["reads"] = ev["reads"][:1]
+            ev["out"] = ev["out"][:16 * (len(ev["reads"][0]) // 16)]
+        canary(rm, first(rm, lambda e: e["op"] == "s.run" and e["err"] == 0 and e["src"] == "raw" and len(e["reads"]) >= 3 and e["mode"] == "ctr"
+                         and 16 <= len(e["reads"][0]) < len(e["data"])), drop_tail, "stream-helper-stopped-reading-before-end-of-stream", "own")
         canary(ra, first(ra, lambda e: e["op"] == "ad.call" and e["fn"] == "mac"), flip("out", 4), "adapter-mac-differs-from-pure-function")
 
         def strip(ev):                                              # what the plug-in did before the fix in /repo
@@ -542,7 +791,7 @@ def run(tier):
             ev["dec"] = d
         canary(ra, first(ra, lambda e: e["op"] == "ad.rt" and e["kind"] == "zero-tail" and len(e["data"]) == 21), strip, "decrypt-strips-trailing-zeros")
         canary(ra, first(ra, lambda e: e["op"] == "pad" and len(e["data"]) == 5), flip("out", 9), "pad-not-zero-padding")
-        canary(ra, first(ra, lambda e: e["op"] == "unreg"), lambda ev: ev.update(cls="ValueError"), "base-class-" + first(ra, lambda e: e["op"] == "unreg")["what"])
+        canary(ra, first(ra, lambda e: e["op"] == "unreg"), lambda ev: ev.update(cls="ValueError"), "base-class-" + (first(ra, lambda e: e["op"] == "unreg") or {"what": ""})["what"])
 
         rm_events = [e for g in sorted(order) for e in order[g]]
         # ---- trace validation (TLC computes every expected value), the three specs side by side
@@ -559,6 +808,7 @@ def run(tier):
             res[k] = (res[k][0], st)
 
         # ---- judge
+        doubts = ["no recorded event to build the canary for %r from" % w for w in skipped]
         for tag, rec in (("aes", rc), ("modes", rm), ("adapter", ra)):
             rej, _ = res[tag]
             byid = {e["tid"]: e for e in rec.evs}
@@ -568,7 +818,7 @@ def run(tier):
                 seen.add(tid)
                 if (id(rec), tid) in canaries:
                     if canaries[(id(rec), tid)] != clause:
-                        raise MachineryError("binding self-test: canary %d of %s rejected by clause %r, expected %r" % (tid, tag, clause, canaries[(id(rec), tid)]))
+                        doubts.append("canary %d of %s rejected by clause %r, expected %r" % (tid, tag, clause, canaries[(id(rec), tid)]))
                     continue
                 e = {k: v for k, v in byid[tid].items() if not k.startswith("_")}
                 if e.get("tag") == "canary":
@@ -585,6 +835,8 @@ def run(tier):
                 if rid == id(rec) and tid not in seen:
                     raise MachineryError("binding self-test: corrupted %s event (%s) was accepted by the trace spec" % (tag, want))
         ncan = len(canaries)
+        if doubts and not rep.violations:                            # with violations reported the deviating library explains them
+            raise MachineryError("binding self-test: " + "; ".join(doubts))
 
         def count(rec, pred):
             return sum(1 for e in rec.evs if pred(e) and e.get("tag") != "canary" and (id(rec), e["tid"]) not in canaries)
@@ -609,6 +861,12 @@ def run(tier):
                       extra={"feeders": n_feeders, "S->C: feeders driven with a chunking enumerated by TLC": n_sc,
                              "TLC chunkings (all of MC_Feeder BLK=2)": len(shapes), "configurations": len(FEEDER_CFGS),
                              "error outcomes": count(rm, lambda e: e["op"] == "f.end" and e["err"] == 1)})
+        n_s = count(rm, lambda e: e["op"] == "s.run")
+        rep.add_trace("Trace_AESModes stream helpers (encrypt_stream / decrypt_stream on BytesIO and raw streams with short reads vs FeederSpec)", {}, n_s,
+                      extra={"runs": n_streams, "block_size values": sorted({e["bs"] for e in rm.evs if e["op"] == "s.run"}),
+                             "runs with a short read followed by more data": count(rm, lambda e: e["op"] == "s.run" and any(
+                                 0 < len(x) < e["bs"] for x in e["reads"][:-2])),
+                             "error outcomes": count(rm, lambda e: e["op"] == "s.run" and e["err"] == 1)})
         st = res["adapter"][1]
         rep.add_trace("Trace_Adapter (create_AES128 encrypt/decrypt/mac histories, round trips for every length 1..64, pad, base class)", st,
                       count(ra, lambda e: True), extra={"round trips": count(ra, lambda e: e["op"] == "ad.rt"),
@@ -616,7 +874,8 @@ def run(tier):
         for e in (first(rc, lambda e: e["op"] == "tab" and e["name"] == "T1" and e["x"] == 1), first(rc, lambda e: e["op"] == "blk"),
                   first(rc, lambda e: e["op"] == "oblk"), first(rm, lambda e: e["op"] == "m.call" and e["err"] == 0 and 0 < len(e["data"]) <= 16),
                   first(rm, lambda e: e["op"] == "f.feed" and e["fin"] == 1 and e["err"] == 0), first(ra, lambda e: e["op"] == "ad.rt" and len(e["data"]) == 5)):
-            rep.sample({k: v for k, v in e.items() if not k.startswith("_")})
+            if e is not None:
+                rep.sample({k: v for k, v in e.items() if not k.startswith("_")})
 
         # ---- collect MC results
         rep.add_mc("MC_Feeder GEN (enumeration of all chunkings for S->C)", gen, {"chunkings": len(shapes)})
@@ -686,6 +945,12 @@ def _redo(evs):
                     acc[2] = 1
             if op == "f.feed" and e["fin"] and not n["err"]:
                 acc[2] = 2                                           # finished; later feeds are the after-finish probes
+        elif op == "s.run":
+            tmp = Rec()
+            sizes = None if e["src"] == "bytesio" else [len(x) for x in e["reads"] if x]
+            drive_stream(tmp, aes, bf, e["mode"], e["seg"], e["dir"], e["pad"], bytes(e["key"]), bytes(e["iv"]), bytes(e["data"]), e["bs"], sizes, tag=e.get("tag", ""))
+            n = {k: v for k, v in tmp.evs[0].items() if not k.startswith("_")}
+            n["grp"], n["tid"] = e["grp"], e["tid"]
         elif op == "m.end":
             n["stream"], n["outs"] = list(acc[0]), list(acc[1])
         elif op == "f.end":
